@@ -431,7 +431,7 @@ func init() {
 		Level: "model_checking",
 		Rule: "real Session on an in-memory net.Conn under the controlled scheduler: serve loop + N concurrent requesters (SendIQ / SendMessage / SendPresence, distinct ids given by the caller or - single requester - an empty or absent id attribute completed by the library, each reading none/one/all tokens of its response and closing it) + a canceller thread cancelling each request's context + a scripted peer whose per-request plan is one of {reply now, reply late (after the requester is gone), duplicate, same id but wrong stanza kind first, unknown id first, never, error reply, an incoming request re-using the id first}, followed by a sentinel stanza and the closing tag; every interleaving of all threads up to the preemption bound, with select ties enumerated. " +
 			"Oracle: each call returns its own reply (kind, id, reply type) xor its context's error after cancellation; a reply instance reaches at most one caller and never caller and handler both; every stanza the peer sent reaches a caller or the handler (except a reply whose requester was cancelled); the sentinel reaches the handler and Serve returns nil; no panic, no deadlock. Non-trivial = executions in which a cancellation or a tolerated drop occurred.",
-		Assumptions: []string{"sequentially consistent interleavings at synchronisation operations and connection I/O; unsynchronised accesses are outside the claim (no race-detector pass exists)", "a reply looked up by the serve loop before a concurrent cancellation may be dropped or handled"},
+		Assumptions: []string{"sequentially consistent interleavings at synchronisation operations and connection I/O; unsynchronised accesses are looked for separately by the free-running -race part (the same bodies on real goroutines), which samples schedules", "a reply looked up by the serve loop before a concurrent cancellation may be dropped or handled"},
 		Parts: func(tier string) []drv.Part {
 			pre, b := 1, 3*time.Minute
 			if tier == "thorough" {
@@ -452,6 +452,7 @@ func init() {
 				{Name: "message-1", Desc: "one tracked message", Body: correlatedBody("message", 1, all), MaxDev: pre + 1, ShardLevels: 3, Budget: b, Env: env},
 				{Name: "presence-1", Desc: "one tracked presence", Body: correlatedBody("presence", 1, all), MaxDev: pre + 1, ShardLevels: 3, Budget: b, Env: env},
 				{Name: "receipts-1", Desc: "delivery receipts: one tracked message", Body: receiptsBody(1), MaxDev: pre + 1, ShardLevels: 3, Budget: b, Env: env},
+				drv.RacePart(pre+2, pre+1, b, correlatedBody("iq", 1, all), correlatedBody("iq", 2, all), correlatedBody("message", 1, all), correlatedBody("presence", 1, all), correlatedBody("iq", 1, all, 1, 2, 3), receiptsBody(1)),
 			}
 		},
 	})
